@@ -261,6 +261,36 @@ _LATER: Dict[str, Dict[str, str]] = {
     "C19": dict(technique="read_namespace / read_files evaluated end to end over an abstract file system with only the per-file read stubbed by the documented protocol; outcome compared with every file outside the closure broken (C19.R6)",
                 text="C19.R6 decides which files the entry points read - exactly the targets and their closure - on four entry-point calls."),
 }
+# Rules built on the concrete front-end world (DESIGN.md 11.13): texts read end to end by the evaluated front end.
+_TEXT: Dict[str, Dict[str, str]] = {
+    "C03": dict(technique="definition texts generated from descriptions, parsed by the checker's PEG matcher over the repository's grammar file and pushed through the repository's visitors / builder / type model by evaluation of the source: mirror of the description (C03.R9), equality of the model under formatting mutations derived from the parse tree (C03.R10), canonical re-rendering read again (C03.R11)",
+                text="C03.R9-R11 decide the mirror, formatting-invariance and round-trip clauses on a generated corpus of 12 definitions (bounded)."),
+    "C04": dict(technique="1056 defined and 734 undefined / malformed expression texts evaluated end to end as @print operands and compared with an independent exact reference evaluator built from the Specification's operator table (C04.R8); one expression in every syntactic context (C04.R9)",
+                text="C04.R8/R9 decide literal decoding, precedence, associativity, operator semantics and rejections on the generated corpus (bounded)."),
+    "C05": dict(technique="a verdict table of 533 small definitions on both sides of every static rule, read end to end by the evaluated front end (C05.R11)",
+                text="C05.R11 decides acceptance as a whole - that every construction path reaches the rule - on the table (bounded)."),
+    "C06": dict(technique="relaxed input forms at every nesting depth serialized by evaluation of the source and compared with the bytes of the explicit form (C06.R8)",
+                text="C06.R8 decides the relaxed-form clause on a bounded grid."),
+    "C09": dict(technique="namespaces of definitions that refer to one another read end to end: every reference against the name it spells, the nested type against the type read alone, unresolvable references rejected (C09.R6)",
+                text="C09.R6 decides resolution end to end on a bounded set of reference graphs."),
+    "C12": dict(technique="constant statements as texts on a grid of types and initializers (both sides of every bound, values a hair above a bound as long real literals, wrong kinds) against the Specification's compliance rule (C12.R6); constants of types that cannot carry one (C12.R7)",
+                text="C12.R6/R7 decide acceptance and the stored value from the text to the model on the grid (bounded)."),
+    "C13": dict(technique="garbled texts from a fixed pseudo-random sequence and a pool of odd tokens read end to end: model or InvalidDefinitionError naming the file (C13.R7); values beyond CPython's 4300-digit conversion limit wherever an expression can stand (C13.R8)",
+                text="C13.R7/R8 decide the no-crash clause on about 500 (quick) / 1400 (thorough) garbled texts and 68 huge-value texts; F18 was found and repaired this way."),
+    "C14": dict(technique="a second family of revisions whose payload holds alignment gaps (C14.R7)", text=""),
+    "C15": dict(technique="a directory tree and 29 malformed file names read end to end (C15.R7); read_files over one file designated ten ways (C15.R8)",
+                text="C15.R7/R8 decide the identity clause end to end on a bounded tree; F16 and F17 were found and repaired this way."),
+    "C17": dict(technique="faulty definitions whose fault line is known by construction (14 faults x 8 preambles x 3 postambles, LF / CRLF, target / dependency / dependency of a dependency) read end to end (C17.R9); @print delivery with ordinary, falsy and absent handlers (C17.R10)",
+                text="C17.R9/R10 decide path, line and delivery on the grid (bounded)."),
+    "C18": dict(technique="a service type named like a message type among the constructed instances of C18.R7", text=""),
+    "C19": dict(technique="directory trees read end to end with everything outside the targets' closure spoiled three ways, also after earlier failed / successful calls in the same process (C19.R7)",
+                text="C19.R7 decides independence from definitions outside the closure, including process history, on a bounded set of trees."),
+}
+for _k, _v in _TEXT.items():
+    CHECKS[_k]["technique"] += "; " + _v["technique"]
+    if _v["text"]:
+        CHECKS[_k]["text"] += " " + _v["text"]
+
 for _k, _v in _LATER.items():
     CHECKS[_k]["technique"] += "; " + _v["technique"]
     if _v["text"]:
